@@ -5,7 +5,7 @@ PROPERTY = 'C13'
 LEVEL = 'exploration'
 TIMEOUT_S = 1200
 RULE = ('order 2..6 x nz in {order+1, order+2, 9} x n_theta in {4,5,8} x theta spline path (uniform cubic / general, non-uniform) x iota in {0, 0.8, 40, '
-        'r-dependent profile} x every radial index of a radially distributed v_parallel_1d layout on process grids 1, 2, 3 (object built per rank '
+        'r-dependent profile, flat with a local bump} x every radial index of a radially distributed v_parallel_1d layout on process grids 1, 2, 3 (object built per rank '
         'with that rank\'s Layout, as the driver does) and of two other orderings ((z,r,theta) on 2x3, (theta,z,r) on 2x2); data = every unit impulse (full operator matrix, selected configurations), constant, '
         'field-aligned function, dense; every (object, radius) is called three times (state must not change between calls); oracle = finite-'
         'difference weights from an exact rational Vandermonde solve (centred stencil for even order), exact-rational theta evaluation matrices along '
@@ -25,7 +25,7 @@ def cases(tier, seed):
                 for sp in SPACES[tier]:
                     if sp[1] > nq:
                         continue
-                    for iota in (0.0, 0.8, 40.0, 'profile'):
+                    for iota in (0.0, 0.8, 40.0, 'profile', 'bump'):
                         out.append({'order': order, 'nz': nz, 'nq': nq, 'space': list(sp), 'iota': iota, 'cost': nz * nq * 5})
     return out
 
@@ -67,6 +67,11 @@ def run_case(case):
     if iota == 'profile':
         c.iotaVal = 0.8
         iota_of = lambda r: 0.8 * (1 + 0.4 * np.asarray(r, dtype=float))       # noqa
+        c.iota = lambda r=None: iota_of(r)
+    elif iota == 'bump':
+        # flat with a local shear bump at one interior radius: equal at both ends of some radial blocks, different inside
+        c.iotaVal = 0.8
+        iota_of = lambda r: 0.8 + 0.3 * np.maximum(0.0, 1 - ((np.asarray(r, dtype=float) - 0.45) / 0.1) ** 2)       # noqa
         c.iota = lambda r=None: iota_of(r)
     else:
         c.iotaVal = iota
